@@ -1,6 +1,7 @@
 package main
 
 import (
+	"sort"
 	"go/ast"
 	"fmt"
 	"os"
@@ -89,5 +90,82 @@ func init() {
 		c.P.CallGraph()
 		c.ok("warm", "load", "", "")
 		c.ok("warm", "callgraph", "", "")
+	})
+}
+
+func init() {
+	register("EFF", func(c *Ctx) {
+		p := c.P
+		ci := p.caps()
+		r := p.newResolver()
+		nilCfg := true
+		for _, root := range p.helperClosures(ci, "blockchain") {
+			if root.Closure == nil {
+				continue
+			}
+			effs := p.effectsFrom(r, ci, root.Closure, atomicCut(c, nilCfg))
+			fmt.Println("==", qname(root.Closure), len(effs), "effects; resolver steps", r.steps)
+			agg := map[string][]string{}
+			for _, e := range effs {
+				k := e.Op + " " + strings.Join(e.Buckets, ",")
+				agg[k] = append(agg[k], qname(e.Fn)+"@"+p.Pos(e.Pos))
+			}
+			var ks []string
+			for k := range agg {
+				ks = append(ks, k)
+			}
+			sort.Strings(ks)
+			for _, k := range ks {
+				v := agg[k]
+				if len(v) > 3 {
+					v = append(v[:3], fmt.Sprintf("…+%d", len(agg[k])-3))
+				}
+				fmt.Println("   ", k, "   ", v)
+			}
+		}
+		c.ok("dbg", "x", "", "")
+		c.ok("dbg", "y", "", "")
+	})
+}
+
+func init() {
+	register("ATTR", func(c *Ctx) {
+		p := c.P
+		ci := p.caps()
+		r := p.newResolver()
+		as := p.allAttributions(r, ci)
+		agg := map[string][]string{}
+		for _, a := range as {
+			if a.Op == "Get" || a.Op == "Has" || a.Op == "Iterate" {
+				continue
+			}
+			k := a.Bucket + " " + a.Op
+			agg[k] = append(agg[k], qname(a.Fn))
+		}
+		var ks []string
+		for k := range agg {
+			ks = append(ks, k)
+		}
+		sort.Strings(ks)
+		for _, k := range ks {
+			v := agg[k]
+			sort.Strings(v)
+			v = uniq(v)
+			fmt.Println(k, "   ", v)
+		}
+		fmt.Println("steps", r.steps)
+		c.ok("dbg", "x", "", "")
+		c.ok("dbg", "y", "", "")
+	})
+}
+
+func init() {
+	register("RET", func(c *Ctx) {
+		parts := strings.Split(os.Getenv("DBG_FN"), ":")
+		for _, fn := range c.P.FuncsNamed(parts[0], parts[1], parts[2]) {
+			fmt.Println(qname(fn), "=>", retTerm(fn))
+		}
+		c.ok("dbg", "x", "", "")
+		c.ok("dbg", "y", "", "")
 	})
 }
